@@ -25,7 +25,7 @@ theorem inv_new (U : Tx → Prop) (c : Nat) : Inv U (new c) := Mempool.inv_new U
 
 /-- `Add` (successful or not) preserves the invariant. -/
 theorem inv_add {U : Tx → Prop} (hw : WF U) {mp : Pool} (hi : Inv U mp) {t : Tx} (ht : U t) (feer : Feer)
-    (hF : FeerOk feer) : Inv U (add mp t feer).1 := Mempool.inv_add hw hi ht feer hF
+    (hF : FeerOk feer) (d : Nat) : Inv U (add mp t feer d).1 := Mempool.inv_add hw hi ht feer hF d
 
 /-- `Remove` preserves the invariant and removes exactly the named transaction. -/
 theorem inv_remove {U : Tx → Prop} (hw : WF U) {mp : Pool} (hi : Inv U mp) (h : Nat) :
@@ -47,7 +47,7 @@ theorem removeStale_resend {U : Tx → Prop} (hw : WF U) {mp : Pool} (hi : Inv U
     Inv U (removeStale mp isOK feer) ∧
     (removeStale mp isOK feer).resent
       = ((removeStale mp isOK feer).txs.filter
-          (fun t => dueForResend mp.resendThreshold feer.height (mp.stamp t.id))).map (·.id) :=
+          (fun t => dueForResend mp.resendThreshold feer.height (mp.stamp t.id))).map (fun t => (t.id, mp.data t.id)) :=
   ⟨(Mempool.inv_removeStale hw hi isOK feer hF).1, (removeStale_resent mp isOK feer).1⟩
 
 /-- `Verify` preserves the invariant (it may only fill the balance cache). -/
@@ -167,15 +167,15 @@ index, the oracle index, capacity and policy are unchanged, nothing panicked, an
 that the new transaction's payer may have received the cache entry (balance from the `Feer`, fee sum 0) —
 exactly what a later lookup would compute anyway (`add_fail_feeview`). -/
 theorem add_fail_unchanged {U : Tx → Prop} (hw : WF U) {mp : Pool} (hi : Inv U mp) {t : Tx} (ht : U t) (feer : Feer)
-    (hF : FeerOk feer) {mp' : Pool} {e : Err} (h : add mp t feer = (mp', some e)) : CacheOnly mp mp' t feer :=
-  ((add_spec hw hi ht feer hF).1 mp' e h).1
+    (hF : FeerOk feer) {d : Nat} {mp' : Pool} {e : Err} (h : add mp t feer d = (mp', some e)) : CacheOnly mp mp' t feer :=
+  ((add_spec hw hi ht feer hF d).1 mp' e h).1
 
 /-- ... and the balance/fee-sum the pool uses for any payer (`getPayerFee` with the same `Feer`) is the same
 before and after the failed `Add`. -/
 theorem add_fail_feeview {U : Tx → Prop} (hw : WF U) {mp : Pool} (hi : Inv U mp) {t : Tx} (ht : U t) (feer : Feer)
-    (hF : FeerOk feer) {mp' : Pool} {e : Err} (h : add mp t feer = (mp', some e)) (q : Payer) :
+    (hF : FeerOk feer) {d : Nat} {mp' : Pool} {e : Err} (h : add mp t feer d = (mp', some e)) (q : Payer) :
     (getPayerFee q mp'.fees feer).1 = (getPayerFee q mp.fees feer).1 := by
-  obtain ⟨_, _, _, _, _, _, _, hf⟩ := add_fail_unchanged hw hi ht feer hF h
+  obtain ⟨_, _, _, _, _, _, _, hf, _⟩ := add_fail_unchanged hw hi ht feer hF h
   rcases hf with hf | ⟨hnone, hf⟩
   · rw [hf]
   · rw [hf]
@@ -193,13 +193,13 @@ that disappeared either names / is named by the new transaction in a Conflicts a
 to the same oracle request with a smaller network fee, or was evicted for capacity — and then the resulting
 pool is full, `x` is not above any remaining entry, and the new transaction is strictly above `x`. -/
 theorem evicts_lowest {U : Tx → Prop} (hw : WF U) {mp : Pool} (hi : Inv U mp) {t : Tx} (ht : U t) (feer : Feer)
-    (hF : FeerOk feer) {mp' : Pool} (h : add mp t feer = (mp', none)) :
+    (hF : FeerOk feer) {d : Nat} {mp' : Pool} (h : add mp t feer d = (mp', none)) :
     t ∈ mp'.txs ∧ (∀ x ∈ mp'.txs, x = t ∨ x ∈ mp.txs) ∧
     (∀ x ∈ mp.txs, x ∉ mp'.txs →
       t.id ∈ x.conflicts ∨ x.id ∈ t.conflicts ∨
       (x.oracle = t.oracle ∧ t.oracle ≠ none ∧ x.netFee < t.netFee) ∨
       (mp'.txs.length = mp'.capacity ∧ (∀ y ∈ mp'.txs, ge y x) ∧ 0 < compare t x)) := by
-  obtain ⟨_, _, _, h4, h5, h6⟩ := (add_spec hw hi ht feer hF).2 mp' h
+  obtain ⟨_, _, _, h4, h5, h6⟩ := (add_spec hw hi ht feer hF d).2 mp' h
   exact ⟨h4, h5, h6⟩
 
 /-- C08 (ordering, insertion step): inserting at the index computed by `Add` (the "equal to the last → append"
@@ -275,15 +275,15 @@ example : Inv (· ∈ univ) (run 3 demoOps) := inv_reachable wf_univ 3 demoOps d
 example : (run 3 demoOps).txs.map (·.id) = [4, 1] := by decide
 -- the regression of the fixed defect eb15b2a: depositor 5 has balance 20 and 15 pooled; its new transaction
 -- (fee 12) conflicting with depositor 6's transaction (fee 10) is rejected with ErrConflict
-example : (add (run 3 [.add a0 F, .add b0 F]) a1 F).2 = some .conflict := by decide
+example : (add (run 3 [.add a0 F, .add b0 F]) a1 F 0).2 = some .conflict := by decide
 -- add_fail_unchanged applies to it (hypotheses met by a reachable state)
-example : CacheOnly (run 3 [.add a0 F, .add b0 F]) (add (run 3 [.add a0 F, .add b0 F]) a1 F).1 a1 F :=
+example : CacheOnly (run 3 [.add a0 F, .add b0 F]) (add (run 3 [.add a0 F, .add b0 F]) a1 F 0).1 a1 F :=
   add_fail_unchanged wf_univ
     (inv_reachable wf_univ 3 [.add a0 F, .add b0 F]
       (by intro op hop; simp at hop; rcases hop with rfl | rfl <;> simp [OpOk, univ, feerOk_F]))
-    (by simp [univ]) F feerOk_F (e := .conflict) (Prod.ext rfl (by decide))
+    (by simp [univ]) F feerOk_F (d := 0) (e := .conflict) (Prod.ext rfl (by decide))
 -- evicts_lowest: capacity 2, pool [a0, b0] is full, c0 (fee per byte 4) evicts the last one (b0)
-example : ((add (run 2 [.add a0 F, .add b0 F]) c0 F).1.txs.map (·.id), (add (run 2 [.add a0 F, .add b0 F]) c0 F).2) = ([3, 0], none) := by
+example : ((add (run 2 [.add a0 F, .add b0 F]) c0 F 0).1.txs.map (·.id), (add (run 2 [.add a0 F, .add b0 F]) c0 F 0).2) = ([3, 0], none) := by
   decide
 -- solvent_reachable: the suffix after the refresh uses F'
 example (q : Payer) : sumFees q (run 3 demoOps).txs ≤ F'.balance q.1 q.2 :=
@@ -294,8 +294,8 @@ example (q : Payer) : sumFees q (run 3 demoOps).txs ≤ F'.balance q.1 q.2 :=
 -- removeStale_resend: threshold 1, c1 (Conflicts = [a0]) pooled at height 10, block 11 arrives: c1 is kept,
 -- resent, and still blocks a0 through the rebuilt Conflicts index
 example :
-    let mp := run 3 [.setResendThreshold 1, .add c1 { F with height := 10 }, .removeStale (fun _ => true) { F with height := 11 }]
-    (mp.txs.map (·.id), mp.resent, hasConflicts mp a0) = ([4], [4], true) := by decide
+    let mp := run 3 [.setResendThreshold 1, .add c1 { F with height := 10 } 77, .removeStale (fun _ => true) { F with height := 11 }]
+    (mp.txs.map (·.id), mp.resent, hasConflicts mp a0) = ([4], [(4, 77)], true) := by decide
 -- insert_keeps_sorted: a transaction that lands in the middle
 example : insertIdx [c1, c0, a0] { c0 with id := 9, netFee := 200 } = 2 := by decide
 
